@@ -231,7 +231,7 @@ PROPS = {
         note=ENVNOTE + '; Arc/channel: sequential semantics; garbage collection itself assumed',
         explanation='one clone per effective registration, one drop per revocation, in-flight handle dropped at end, exact ref-count of the signal; collection not covered'),
     'C10': dict(category='other', design_ref='DESIGN.md 5/C10 + 9.5',
-        text='Kani discharges on the real AutoDespawner / AutoDespawnSignal (real std::sync::Arc, assumed FIFO channel) that for 1..3 clones dropped one by one, with the request channel polled after every drop, the prepared entity is requested for despawn exactly once, at the drop of the LAST clone, never while a clone exists, and with the right entity id (symbolic); AutoDespawner::new creates an UNBOUNDED request channel (no request can be lost or blocked however many are pending). Lemma L4 (Verus) generalises the count to k clones over the assumed Arc contract. NOT discharged: garbage_collect_entities (drain loop, despawn_recursive of descendants, skipping entities already gone) - a World + Arc + channel harness exceeds the cost rule and the function is outside Verus\' subset (closure effects); threads are not verified at all (Kani has no thread support): every concurrent history of drops is ASSUMED equivalent to a sequential one (Arc\'s atomic count, linearizable channel).',
+        text='Kani discharges on the real AutoDespawner / AutoDespawnSignal (real std::sync::Arc, assumed FIFO channel) that for 1..3 clones dropped one by one, with the request channel polled after every drop, the prepared entity is requested for despawn exactly once, at the drop of the LAST clone, never while a clone exists, and with the right entity id (symbolic); AutoDespawner::new creates an UNBOUNDED request channel (no request can be lost or blocked however many are pending), and a repeated setup_auto_despawn keeps the existing despawner, so signals prepared earlier stay connected. Lemma L4 (Verus) generalises the count to k clones over the assumed Arc contract. NOT discharged: garbage_collect_entities (drain loop, despawn_recursive of descendants, skipping entities already gone) - a World + Arc + channel harness exceeds the cost rule and the function is outside Verus\' subset (closure effects); threads are not verified at all (Kani has no thread support): every concurrent history of drops is ASSUMED equivalent to a sequential one (Arc\'s atomic count, linearizable channel).',
         note=ENVNOTE + '; threads not verified; garbage_collect_entities not under contract',
         explanation='exact reference count up to the despawn request (Kani, real Arc, <=3 clones; lemma L4); collection and concurrency assumed'),
     'C16': dict(category='other', design_ref='DESIGN.md 5/C16 + 9.5',
